@@ -345,6 +345,87 @@ func (vc *FuncVC) applyContract(st *State, reach Term, ins *ssa.Call, callee *ss
 	for _, en := range fc.Ensures {
 		vc.assume(Implies(reach, envPost.boolean(en.E)))
 	}
+	if vc.fc.Delegate == name && vc.discovery == 0 {
+		dc := &delegCall{reach: reach, res: res, after: st.clone(), pos: ins.Pos()}
+		for i := range common.Args {
+			dc.args = append(dc.args, vars[pnames[i]])
+		}
+		vc.dcalls = append(vc.dcalls, dc)
+	}
+}
+
+// delegationChecks (class T): the function performs exactly one call of the named operation with the
+// stated arguments unless an error is already pending, accumulates its flags, records its error and
+// does not touch the destination otherwise.
+func (vc *FuncVC) delegationChecks(st *State, reach Term, k int, pos token.Pos) {
+	fc := vc.fc
+	tags := vc.propTags("C03")
+	e0 := vc.env(vc.entry, nil)
+	ev, ok := e0.vars["e"]
+	if !ok || ev.Ty.K != KRef {
+		panic("delegates: receiver must be named e")
+	}
+	oldErr := vc.fieldOf(vc.entry, ev.T, ev.Ty.Elem, "err").T
+	oldFlags := vc.fieldOf(vc.entry, ev.T, ev.Ty.Elem, "Flags").T
+	ctx := vc.fieldOf(vc.entry, ev.T, ev.Ty.Elem, "Ctx")
+	traps := vc.fieldOf(vc.entry, ctx.T, ctx.Ty.Elem, "Traps").T
+	sys := BVLit(3)
+	pending := Or(Ne(oldErr, IntLit(0)), Ne(app(SBV, "bvand", oldFlags, sys), BVLit(0)), Ne(app(SBV, "bvand", oldFlags, traps), BVLit(0)))
+	newErr := vc.fieldOf(st, ev.T, ev.Ty.Elem, "err").T
+	newFlags := vc.fieldOf(st, ev.T, ev.Ty.Elem, "Flags").T
+	if len(vc.dcalls) != 1 {
+		vc.oblige("T", fmt.Sprintf("delegates/one-call/ret%d", k), reach, BoolLit(len(vc.dcalls) == 1), tags, pos, "exactly one call of "+fc.Delegate)
+		return
+	}
+	dc := vc.dcalls[0]
+	// the call happens exactly when no error is pending
+	vc.oblige("T", fmt.Sprintf("delegates/called-iff-no-error/ret%d", k), reach, Eq(dc.reach, Not(pending)), tags, pos, "the operation is performed iff no error is pending")
+	// arguments
+	var argGoals []Term
+	for i, ax := range fc.DelegateArgs {
+		if i >= len(dc.args) {
+			break
+		}
+		want := e0.eval(ax)
+		argGoals = append(argGoals, Eq(dc.args[i].T, want.T))
+	}
+	vc.oblige("T", fmt.Sprintf("delegates/arguments/ret%d", k), dc.reach, And(append(argGoals, BoolLit(len(fc.DelegateArgs) == len(dc.args)))...), tags, dc.pos, "arguments of "+fc.Delegate)
+	// skipped: nothing but e.err changes
+	var same []Term
+	for _, key := range sortedKeys(st.heap) {
+		if key == "ErrDecimal.err" {
+			continue
+		}
+		s := vc.keys[key]
+		if st.heap[key].S != vc.arr(vc.entry, key, s).S {
+			sk := vc.named("skd_"+sanitize(key), SInt)
+			same = append(same, Implies(And(Lt(IntLit(0), sk), Lt(sk, vc.entry.cnt)), Eq(Select(st.heap[key], sk, s), Select(vc.arr(vc.entry, key, s), sk, s))))
+		}
+	}
+	vc.oblige("T", fmt.Sprintf("delegates/skip-untouched/ret%d", k), And(reach, pending), And(append(same, Ne(newErr, IntLit(0)))...), tags, pos, "after an error every destination is left untouched")
+	// performed: flags accumulated, error recorded, destination exactly as the operation left it
+	var flagsT, errT Term
+	rt := dc.res
+	switch {
+	case rt.Kind == vTuple && len(rt.Elems) >= 2:
+		flagsT, errT = rt.Elems[len(rt.Elems)-2].T, rt.Elems[len(rt.Elems)-1].T
+	default:
+		vc.oblige("T", fmt.Sprintf("delegates/result-shape/ret%d", k), reach, TFalse, tags, pos, "callee must return (…, Condition, error)")
+		return
+	}
+	var kept []Term
+	for _, key := range sortedKeys(st.heap) {
+		if strings.HasPrefix(key, "ErrDecimal.") {
+			continue
+		}
+		s := vc.keys[key]
+		if st.heap[key].S != vc.arr(dc.after, key, s).S {
+			sk := vc.named("skd_"+sanitize(key), SInt)
+			kept = append(kept, Implies(And(Lt(IntLit(0), sk), Lt(sk, vc.entry.cnt)), Eq(Select(st.heap[key], sk, s), Select(vc.arr(dc.after, key, s), sk, s))))
+		}
+	}
+	goal := And(append(kept, Eq(newFlags, app(SBV, "bvor", oldFlags, flagsT)), Eq(newErr, errT))...)
+	vc.oblige("T", fmt.Sprintf("delegates/accumulates/ret%d", k), And(reach, Not(pending)), goal, tags, pos, "flags accumulated, error recorded, result delivered unchanged")
 }
 
 func (vc *FuncVC) execReturn(st *State, reach Term, ins *ssa.Return) {
@@ -362,9 +443,17 @@ func (vc *FuncVC) execReturn(st *State, reach Term, ins *ssa.Return) {
 			}
 		}
 	}
+	for name, v := range vc.localVars() {
+		if _, clash := vars[name]; !clash {
+			vars[name] = v
+		}
+	}
 	env := vc.env(st, vars)
 	tags := vc.propTags()
 	for j, en := range vc.fc.Ensures {
+		if vc.mentionsUnallocatedLocal(en.E, vars) {
+			continue // the clause talks about a local that does not exist yet at this return
+		}
 		label := en.Name
 		if label == "" {
 			label = fmt.Sprintf("%d", j+1)
@@ -381,6 +470,9 @@ func (vc *FuncVC) execReturn(st *State, reach Term, ins *ssa.Return) {
 	}
 	if vc.fc.HasAssigns {
 		vc.frameChecks(st, reach, k, ins.Pos())
+	}
+	if vc.fc.Delegate != "" {
+		vc.delegationChecks(st, reach, k, ins.Pos())
 	}
 }
 
@@ -413,4 +505,49 @@ func (vc *FuncVC) frameChecks(st *State, reach Term, k int, pos token.Pos) {
 		goal := Implies(And(conds...), Eq(Select(final, sk, s), Select(init, sk, s)))
 		vc.oblige("F", fmt.Sprintf("frame/%s/ret%d", key, k), reach, goal, vc.propTags("C06", "C18", "C05"), pos, "only the assigns set is written: "+key)
 	}
+}
+
+// mentionsUnallocatedLocal: the expression names a source-level local of the function that has no value at this point.
+func (vc *FuncVC) mentionsUnallocatedLocal(x Expr, vars map[string]SVal) bool {
+	found := false
+	var walk func(x Expr)
+	walk = func(x Expr) {
+		switch x := x.(type) {
+		case *EIdent:
+			if _, ok := vars[x.Name]; ok {
+				return
+			}
+			if _, ok := vc.params[x.Name]; ok {
+				return
+			}
+			if vc.localNames[x.Name] {
+				found = true
+			}
+		case *EOld:
+			walk(x.X)
+		case *ELet:
+			walk(x.V)
+			walk(x.Body)
+		case *EForall:
+			walk(x.Lo)
+			walk(x.Hi)
+			walk(x.Body)
+		case *EUn:
+			walk(x.X)
+		case *EBin:
+			walk(x.X)
+			walk(x.Y)
+		case *EField:
+			walk(x.X)
+		case *EIndex:
+			walk(x.X)
+			walk(x.I)
+		case *ECall:
+			for _, a := range x.Args {
+				walk(a)
+			}
+		}
+	}
+	walk(x)
+	return found
 }
